@@ -45,7 +45,7 @@ def rule_accessors(ctx):
         ti = A.fn_text(fn, inline=True)
         V = "variant_state.variant.unwrap()"
         als = A.aliases(fn)
-        vi = next((n for n, (e, _) in als.items() if A.inline_text(A.render(e), als).lstrip("&") == f"{V}.ident"), None)
+        vi = next((n for n, (e, *_) in als.items() if A.inline_text(A.render(e), als).lstrip("&") == f"{V}.ident"), None)
         need(
             ctx,
             f"{kind_}:same-variant",
@@ -72,17 +72,27 @@ def rule_accessors(ctx):
         need(ctx, f"{kind_}:gating", "if info.owned&&state.default_info.owned{funcs.push(func)}" in t and "if info.ref_&&state.default_info.ref_{funcs.push(ref_func)}" in t and "if info.ref_mut&&state.default_info.ref_mut{funcs.push(mut_func)}" in t, w, f"{kind_}: owned/ref/ref_mut forms are no longer emitted exactly as selected")
         gi = A.get_fn(ctx.files, rel, "get_field_info")
         gt = A.fn_text(gi)
-        need(ctx, f"{kind_}:binders", 'fields.unnamed.iter().enumerate().map(|(n,it)|(format_ident!("field_{n}"),&it.ty)).unzip' in gt and "(quote!((#(#idents),*)),quote!((#(#idents),*)),types)" in gt, ctx.where(gi.file, gi.node), f"{kind_}: pattern binders, returned tuple and types no longer come from one enumerate over the variant's fields (same identifiers, same order)")
+        # one enumerate over the variant's unnamed fields yields the binder `field_{n}` and the type of the same element
+        # (iterator chain or loop alike); pattern and returned tuple list the same binders
+        fim = next((m_ for m_, _ in A.find(gi.block, ("Expr::Macro", "Stmt::Macro")) if A.path_last(m_["mac"]["path"]) == "format_ident"), None)
+        it_ = A.iteration_of(fim, gi.block) if fim is not None else None
+        b_ok = False
+        if it_:
+            src_, pat_, stmts_ = it_
+            pm = re.fullmatch(r"\((\w+),(\w+)\)", pat_)
+            body_ = ";".join(A.render_stmt(x) for x in stmts_)
+            b_ok = bool(pm) and "unnamed" in src_ and src_.endswith(".enumerate()") and f'format_ident!("field_{{{pm.group(1)}}}")' in body_.replace(" ", "") and f"&{pm.group(2)}.ty" in body_
+        need(ctx, f"{kind_}:binders", b_ok and "(quote!((#(#idents),*)),quote!((#(#idents),*)),types)" in gt, ctx.where(gi.file, gi.node), f"{kind_}: pattern binders, returned tuple and types no longer come from one enumerate over the variant's fields (same identifiers, same order)")
         fb = A.get_fn(ctx.files, rel, "failed_block")
         ft = A.fn_text(fb)
         need(
             ctx,
             f"{kind_}:failed-block:all-variants",
-            "let arms=state.variant_states.iter().map(|it|it.variant.unwrap()).map(|variant|" in ft,
+            "let arms=state.variant_states.iter().map(|it|" in ft and not ft.has_exact("enabled_variant"),
             ctx.where(fb.file, fb.node),
             f"{kind_}: the failure re-match no longer lists *all* variants (`state.variant_states`, ignored ones included): a value of an ignored variant hits a missing / `unreachable!` arm instead of the documented panic or error",
         )
-        ftt = texts(fb)
+        ftt = A.TList(list(texts(fb)) + [x for h in A.single_use_helpers(fb) for x in texts(h)])
         need(ctx, f"{kind_}:failed-block:match", "matchval{#(#arms),*}" in ftt and not any("_=>" in s for s in ftt), ctx.where(fb.file, fb.node), f"{kind_}: the failure re-match is no longer an exhaustive `match val {{ <one arm per variant> }}` (a wildcard arm hides variants)", {"templates": ftt})
         if kind_ == "try_unwrap":
             need(ctx, "try_unwrap:error-carries-value", any(s.startswith("derive_more::TryUnwrapError::<_>::new(val,") for s in ftt) and "val@#enum_name::#variant_ident#data_pattern=>derive_more::core::result::Result::Err(#error)" in ftt, ctx.where(fb.file, fb.node), "try_unwrap: the error is no longer built from the re-bound original value `val`")
@@ -387,9 +397,16 @@ def rule_from_str(ctx):
     st = A.fn_text(sf)
     stt = texts(sf)
     w = ctx.where(sf.file, sf.node)
-    need(ctx, "fromstr:newtype:delegation", "#casted_trait::from_str(src)?" in stt and "let body=single_field_data.initializer(&initializers)" in st, w, "newtype FromStr no longer wraps `<Field as FromStr>::from_str(src)?`")
+    sti = A.fn_text(sf, inline=True)
+    deleg = "#casted_trait::from_str(src)?" in stt and (
+        (re.search(r"let \w+=\[quote!\(#\w+::from_str\(src\)\?\)\];", sti) is not None and re.search(r"\.initializer\(&\w+\)", sti) is not None)
+        or re.search(r"\.initializer\(&\[quote!\(#\w+::from_str\(src\)\?\)\]\)", sti) is not None
+    )
+    need(ctx, "fromstr:newtype:delegation", deleg, w, "newtype FromStr no longer wraps `<Field as FromStr>::from_str(src)?`")
     need(ctx, "fromstr:newtype:error", "<#field_typeas#trait_path>::Err" in stt and any("typeErr=#error;" in s and "fnfrom_str(src:&str)->derive_more::core::result::Result<Self,#error>{derive_more::core::result::Result::Ok(#body)}" in s for s in stt), w, "newtype FromStr no longer returns the field type's own error unchanged")
-    need(ctx, "fromstr:newtype:single-field", "if state.fields.len()!=1||state.enabled_fields().len()!=1{panic_one_field(trait_name)}" in st, w, "newtype FromStr no longer requires exactly one field")
+    # reach condition of the refusal, canonical (aliases inlined, negations normalised)
+    one = [A.alpha(" && ".join(RJ.guard_chain(sf, c, ps, RJ._lets(sf))), numbered=False) for c, ps in A.find(sf.block, "Expr::Call") if A.kind(c["func"]) == "Expr::Path" and A.path_str(c["func"]) == "panic_one_field"]
+    need(ctx, "fromstr:newtype:single-field", one == ["if !($.fields.len()==1)||!($.enabled_fields().len()==1)"], w, f"newtype FromStr no longer requires exactly one (declared and enabled) field (refuses under {one})")
 
 
 # ---------------------------------------------------------------- C14
@@ -403,12 +420,39 @@ def rule_delegation(ctx):
     t = A.fn_text(d)
     need(ctx, "deref:single-field", "=state.assert_single_enabled_field()" in t, w, "Deref no longer takes the single enabled field")
     need(ctx, "deref:forward", "#casted_trait::Target" in tt and "#casted_trait::deref(&#member)" in tt and "where#field_type:#trait_path" in tt, w, "forwarded Deref is no longer `<FieldTy as Deref>::deref(&self.field)` with `Target` projected from the same cast", {"templates": tt})
-    need(ctx, "deref:direct", "#field_type" in tt and "&#member" in tt and "let (target,body,generics)=if info.forward{" in t, w, "direct Deref is no longer `&self.field` with `Target = FieldTy`")
+    # under which condition is each piece produced? (one tuple-valued `if`, or one `if` per piece, aliases inlined)
+    from . import reject as RJ
+
+    def tpl_conditions(g):
+        out = {}
+        for mac, ps in A.find(g.block, ("Expr::Macro", "Stmt::Macro")):
+            if A.path_last(mac["mac"]["path"]) == "quote":
+                txt = T.ir_text(T.to_ir(mac["mac"]["tokens"])).replace(" ", "")
+                out.setdefault(txt, []).append(A.alpha(" && ".join(RJ.guard_chain(g, mac, ps, RJ._lets(g))), numbered=False))
+        return out
+
+    tc = tpl_conditions(d)
+    FWD, DIR = ["if $.forward"], ["if !($.forward)"]
+    need(
+        ctx,
+        "deref:direct",
+        tc.get("#field_type") == DIR and tc.get("&#member") == DIR and tc.get("#casted_trait::Target") == FWD and tc.get("#casted_trait::deref(&#member)") == FWD and tc.get("where#field_type:#trait_path") == FWD,
+        w,
+        f"Deref: the direct form (`Target = FieldTy`, `&self.field`) and the forwarded form are no longer selected by `info.forward` alone ({ {k: v for k, v in tc.items() if len(k) < 40} })",
+    )
     need(ctx, "deref:impl", any("typeTarget=#target;#[inline]fnderef(&self)->&Self::Target{#body}" in s for s in tt), w, "Deref impl shape changed")
     dm = A.get_fn(ctx.files, "impl/src/deref_mut.rs", "expand")
     tt = texts(dm)
     w = ctx.where(dm.file, dm.node)
-    need(ctx, "deref_mut:forms", "#casted_trait::deref_mut(&mut#member)" in tt and "&mut#member" in tt and any("fnderef_mut(&mutself)->&mutSelf::Target{#body}" in s for s in tt), w, "DerefMut no longer returns `&mut self.field` / forwards to the field's deref_mut", {"templates": tt})
+    tcm = tpl_conditions(dm)
+    need(
+        ctx,
+        "deref_mut:forms",
+        tcm.get("#casted_trait::deref_mut(&mut#member)") == FWD and tcm.get("&mut#member") == DIR and any("fnderef_mut(&mutself)->&mutSelf::Target{#body}" in s for s in tt),
+        w,
+        "DerefMut no longer returns `&mut self.field` / forwards to the field's deref_mut exactly as `info.forward` says",
+        {"templates": tt},
+    )
     for rel, meth, r in (("impl/src/index.rs", "index", "&"), ("impl/src/index_mut.rs", "index_mut", "&mut")):
         fn = A.get_fn(ctx.files, rel, "expand")
         tt = texts(fn)
@@ -422,7 +466,17 @@ def rule_delegation(ctx):
     tt = texts(ii)
     t = A.fn_text(ii)
     w = ctx.where(ii.file, ii.node)
-    need(ctx, "into_iter:per-kind", "for ref_type in info.ref_types(){let reference=ref_type.reference();let lifetime=ref_type.lifetime();let reference_with_lifetime=ref_type.reference_with_lifetime()" in t, w, "IntoIterator impls are no longer generated per selected reference kind from one template")
+    # one impl template, inside one iteration over the selected reference kinds, its three reference tokens derived from
+    # the iteration variable (loop, closure or named closure alike)
+    impl_mac = next((m_ for m_, _ in A.find(ii.block, ("Expr::Macro", "Stmt::Macro")) if A.path_last(m_["mac"]["path"]) == "quote" and "impl" in A.token_idents(m_["mac"]["tokens"])), None)
+    it_ = A.iteration_of(impl_mac, ii.block) if impl_mac is not None else None
+    ok_ = False
+    if it_:
+        src_, pat_, stmts_ = it_
+        var_ = re.sub(r":.*", "", pat_)
+        body_ = ";".join(A.render_stmt(x) for x in stmts_)
+        ok_ = re.fullmatch(r"\w+\.ref_types\(\)", src_) is not None and all(f"{var_}.{m_}()" in body_ for m_ in ("reference", "lifetime", "reference_with_lifetime"))
+    need(ctx, "into_iter:per-kind", ok_, w, "IntoIterator impls are no longer generated per selected reference kind from one template")
     need(ctx, "into_iter:cast", "<#reference_with_lifetime#field_typeas#trait_path>" in tt and "where#reference_with_lifetime#field_type:#trait_path" in tt, w, "the cast / bound is no longer on `&'a [mut] FieldTy`")
     need(ctx, "into_iter:impl", any("typeItem=#casted_trait::Item;typeIntoIter=#casted_trait::IntoIter;#[inline]fninto_iter(self)->Self::IntoIter{#casted_trait::into_iter(#reference#member)}" in s for s in tt), w, "IntoIterator body is no longer `<&[mut] FieldTy as IntoIterator>::into_iter(&[mut] self.field)` with Item/IntoIter of the same cast", {"templates": tt})
     # RefType helpers agree pairwise
